@@ -273,7 +273,8 @@ class RF24:
         self._reg_write(CONFIGURE, self._config)
         start_timer = time.monotonic_ns()
         if is_rx:
-            self._ce_pin.value = True
+            # restore pipe 0 before activating the receiver: an SPI transaction can take
+            # longer than the radio needs to start listening (on the TX address)
             if (
                 self._pipe0_read_addr is not None
                 and self._pipe0_read_addr != self.address(0)
@@ -284,6 +285,8 @@ class RF24:
             elif self._pipe0_read_addr is None and self._open_pipes & 1:
                 self._open_pipes &= 0x3E  # close_rx_pipe(0) is slower
                 self._reg_write(OPEN_PIPES, self._open_pipes)
+            self._ce_pin.value = True
+            start_timer = time.monotonic_ns()
         else:
             if self._features & 6 == 6 and ((self._aa & self._dyn_pl) & 1):
                 self.flush_tx()
